@@ -4,6 +4,9 @@ package drv
 import (
 	"bufio"
 	"bytes"
+	"context"
+	"crypto/tls"
+	"net"
 	"fmt"
 	"io"
 	"math/rand"
@@ -12,6 +15,7 @@ import (
 	"strings"
 
 	"github.com/redis/rueidis"
+	"verifh/fakeredis"
 	"verifh/resp"
 )
 
@@ -190,4 +194,14 @@ func Tail(s string, n int) string {
 		return s[len(s)-n:]
 	}
 	return s
+}
+
+// Option returns a ClientOption whose connections go to the fake server.
+func Option(s *fakeredis.Server, addrs ...string) rueidis.ClientOption {
+	return rueidis.ClientOption{
+		InitAddress: addrs,
+		DialCtxFn: func(ctx context.Context, addr string, _ *net.Dialer, _ *tls.Config) (net.Conn, error) {
+			return s.Dial(ctx, addr)
+		},
+	}
 }
